@@ -158,6 +158,16 @@ func (s *V2Sessionless) buildAndSendPayload(ctx context.Context, p ipmi.Payload)
 }
 
 // saves having to write two SerializeLayers calls in SendCommand
+// isResponseTo returns whether rsp is the operation carried by a response to a
+// request for operation req. Replies to other commands, e.g. a late duplicate,
+// must not be mistaken for the response being waited for.
+func isResponseTo(rsp, req *ipmi.Operation) bool {
+	return rsp.Function == req.Function+1 &&
+		rsp.Command == req.Command &&
+		rsp.Body == req.Body &&
+		rsp.Enterprise == req.Enterprise
+}
+
 func serializableLayerOrEmpty(s gopacket.SerializableLayer) gopacket.SerializableLayer {
 	if s == nil {
 		return gopacket.Payload(nil)
@@ -253,6 +263,10 @@ func (s *V2Sessionless) buildAndSendCommand(ctx context.Context, c ipmi.Command)
 		types := layerexts.DecodedTypes(s.layers)
 		if err := types.InnermostEquals(ipmi.LayerTypeMessage); err != nil {
 			return err
+		}
+		if !isResponseTo(&s.messageLayer.Operation, c.Operation()) {
+			return fmt.Errorf("received a message for %v while waiting for "+
+				"the response to %v", s.messageLayer.Operation, *c.Operation())
 		}
 
 		code := s.messageLayer.CompletionCode
